@@ -2,8 +2,9 @@
    Theorem statements only; proofs in WorldProofs.v.  Proved: copy() / snap() (copy_new) and JSON
    decoding produce a complex all of whose attribute dictionaries were allocated by itself, under
    a fresh owner, leaving every older heap cell untouched; two complexes with different owners
-   share no dictionary.  Tested only: the contents of the copies, compose / flagComplex /
-   vietorisRipsComplex / Filtration.copy freshness, follow-up mutation scripts. *)
+   share no dictionary; likewise compose / flagComplex / vietorisRipsComplex / deepcopy /
+   Filtration.copy; contents of copy().  Tested only: attribute contents of Filtration.copy,
+   follow-up mutation scripts. *)
 From Coq Require Import String ZArith Bool Arith List.
 From SV Require Import Names NamesFacts ListFacts Rep Fresh Complex Atomic RepInv Reach Homology Filtration Gen World WorldProofs Shapes CopyFaithful CopyAttrs.
 From SV Require Import VInv CopyOk.
